@@ -1165,7 +1165,9 @@ type (
 		chSocketReadError   chan struct{}
 		socketReadErrorOnce sync.Once
 
-		rd atomic.Value // read deadline for Accept()
+		rd        atomic.Value  // read deadline for Accept()
+		rdMu      sync.Mutex    // guards rdChanged
+		rdChanged chan struct{} // closed and replaced whenever the deadline is set
 	}
 )
 
@@ -1375,23 +1377,42 @@ func (l *Listener) Accept() (net.Conn, error) {
 
 // AcceptKCP accepts a KCP connection
 func (l *Listener) AcceptKCP() (*UDPSession, error) {
-	var timeout <-chan time.Time
-	if tdeadline, ok := l.rd.Load().(time.Time); ok && !tdeadline.IsZero() {
-		timer := time.NewTimer(time.Until(tdeadline))
-		defer timer.Stop()
+	var timer *time.Timer
+	defer func() {
+		if timer != nil {
+			timer.Stop()
+		}
+	}()
 
-		timeout = timer.C
-	}
+	for {
+		// a deadline set while this call is blocked closes 'changed'
+		l.rdMu.Lock()
+		changed := l.rdChanged
+		tdeadline, _ := l.rd.Load().(time.Time)
+		l.rdMu.Unlock()
 
-	select {
-	case <-timeout:
-		return nil, errors.WithStack(errTimeout)
-	case c := <-l.chAccepts:
-		return c, nil
-	case <-l.chSocketReadError:
-		return nil, l.socketReadError.Load().(error)
-	case <-l.die:
-		return nil, errors.WithStack(io.ErrClosedPipe)
+		if timer != nil {
+			timer.Stop()
+			timer = nil
+		}
+		var timeout <-chan time.Time
+		if !tdeadline.IsZero() {
+			timer = time.NewTimer(time.Until(tdeadline))
+			timeout = timer.C
+		}
+
+		select {
+		case <-changed:
+			// re-read the deadline
+		case <-timeout:
+			return nil, errors.WithStack(errTimeout)
+		case c := <-l.chAccepts:
+			return c, nil
+		case <-l.chSocketReadError:
+			return nil, l.socketReadError.Load().(error)
+		case <-l.die:
+			return nil, errors.WithStack(io.ErrClosedPipe)
+		}
 	}
 }
 
@@ -1404,7 +1425,11 @@ func (l *Listener) SetDeadline(t time.Time) error {
 
 // SetReadDeadline implements the Conn SetReadDeadline method.
 func (l *Listener) SetReadDeadline(t time.Time) error {
+	l.rdMu.Lock()
 	l.rd.Store(t)
+	close(l.rdChanged) // every blocked Accept re-reads the deadline
+	l.rdChanged = make(chan struct{})
+	l.rdMu.Unlock()
 	return nil
 }
 
@@ -1521,6 +1546,7 @@ func serveConn(block BlockCrypt, dataShards, parityShards int, conn net.PacketCo
 	l.parityShards = parityShards
 	l.block = block
 	l.chSocketReadError = make(chan struct{})
+	l.rdChanged = make(chan struct{})
 	go l.monitor()
 	return l, nil
 }
